@@ -1269,7 +1269,10 @@ class ASTStubGenerator(BaseStubGenerator, mypy.traverser.TraverserVisitor):
         module, relative = translate_module_name(o.id, o.relative)
         if self.module_name:
             full_module, ok = mypy.util.correct_relative_import(
-                self.module_name, relative, module, self.path.endswith(".__init__.py")
+                self.module_name,
+                relative,
+                module,
+                os.path.basename(self.path).startswith("__init__."),
             )
             if not ok:
                 full_module = module
